@@ -6,9 +6,11 @@ import (
 	"math/rand"
 	"net/netip"
 	"strings"
+	"sync"
 	"time"
 
 	"github.com/DataDog/datadog-traceroute/traceroute"
+	"golang.org/x/sys/unix"
 
 	"verif/harness/drive"
 	"verif/harness/fw"
@@ -300,6 +302,76 @@ func runC05RealtimeSlowSend(c *fw.Ctx, id string, v refmatch.Variant) {
 	}
 }
 
+// clockStepMu: one wall-clock step at a time (the steps are relative, but two overlapping cases would see each other's).
+var clockStepMu sync.Mutex
+
+// runC05RealtimeClockStep (REAL clock): the system's wall clock is set back by two seconds 10 ms after the first probe left
+// (an NTP step, a VM resume, `date -s`) and put forward again after the run. An RTT is elapsed time: it is neither
+// negative nor longer than the run took. On the virtual clock wall and monotonic time move together, so only this
+// real-clock case can see a send instant that lost its monotonic reading. Needs CAP_SYS_TIME; without it nothing is judged.
+func runC05RealtimeClockStep(c *fw.Ctx, id string, v refmatch.Variant) {
+	clockStepMu.Lock()
+	defer clockStepMu.Unlock()
+	step := func(d time.Duration) error {
+		var ts unix.Timespec
+		if err := unix.ClockGettime(unix.CLOCK_REALTIME, &ts); err != nil {
+			return err
+		}
+		t := time.Unix(int64(ts.Sec), int64(ts.Nsec)).Add(d)
+		nts := unix.NsecToTimespec(t.UnixNano())
+		return unix.ClockSettime(unix.CLOCK_REALTIME, &nts)
+	}
+	if err := step(0); err != nil {
+		c.Count("clock_step_not_permitted", 1)
+		return
+	}
+	spec := defaultSpec(v, 110+c.Worker, 1, 4)
+	spec.Timeout, spec.Delay, spec.Poll, spec.HandshakeTimeout = 500*time.Millisecond, 20*time.Millisecond, 50*time.Millisecond, 500*time.Millisecond
+	if v.Proto == "sack" {
+		spec.Port = uint16(28000 + c.Worker)
+	}
+	e, err := newSimEnv(c, spec, 0x10000000)
+	if err != nil {
+		c.Inconclusive(err.Error())
+		return
+	}
+	defer e.close()
+	m := &pathModel{hops: map[int]*hopSpec{}, dist: 4, destDelay: 80 * time.Millisecond}
+	for t := 1; t < 4; t++ {
+		m.hops[t] = &hopSpec{addr: routerAddr(v.V6, 1, t), delay: 80 * time.Millisecond}
+	}
+	var once sync.Once
+	stepped := make(chan error, 1)
+	m.extra = func(e *simEnv, p *refmatch.Probe) {
+		once.Do(func() { time.AfterFunc(10*time.Millisecond, func() { stepped <- step(-2 * time.Second) }) })
+	}
+	t0 := time.Now()
+	res := e.run(m)
+	el := time.Since(t0) // monotonic
+	select {
+	case err := <-stepped:
+		if err == nil {
+			step(2 * time.Second)
+		}
+	case <-time.After(time.Second):
+	}
+	if res.Err != nil || res.Run == nil {
+		c.Inconclusive(fmt.Sprintf("%s: run failed: %v", id, res.Err))
+		return
+	}
+	c.Nontrivial("realtime-clock-step/" + v.Name)
+	for _, h := range res.Run.Hops {
+		if len(h.IPAddress) == 0 {
+			continue
+		}
+		c.Count("rtt_checked_across_clock_step", 1)
+		if h.RTT < 0 || h.RTT > msOf(el)+1 {
+			c.Violate("C05", "rtt-follows-wall-clock/"+v.Name, fmt.Sprintf("%s: hop %d reports an RTT of %.3f ms; the whole run took %.3f ms and the wall clock was set back by 2 s while the probes were outstanding", id, h.TTL, h.RTT, msOf(el)), fmtRun(res))
+			return
+		}
+	}
+}
+
 // objectReuseCases: one protocol object, three runs, the capture filter of each run enforced (used by C06 and C12).
 func objectReuseCases(prop string) []fw.Case {
 	var cases []fw.Case
@@ -456,6 +528,18 @@ func checkC05() fw.Check {
 			// be timed - the bubble stalls instead (the case watchdog then ends the run as inconclusive); here it shows
 			// up as an RTT of ~400 ms for a reply that arrived after 30 ms. Threshold 230 ms (30 + one poll of 50 + 150
 			// ms of scheduling slack on a loaded machine).
+			// "0 meaning no answer": a time-exceeded from the target's own address for the end-to-end probe's TTL is a hop under
+			// that address, not an answer of the destination - the sample stays 0 (shared with C04)
+			for _, proto := range []string{"icmp", "tcp"} {
+				proto := proto
+				id := "C05/e2e-te-from-target/" + proto
+				cases = append(cases, fw.Case{ID: id, Bubble: true, Run: func(c *fw.Ctx) { runC04E2eTEFromTarget(c, id, proto) }})
+			}
+			for _, vn := range []string{"udp4", "icmp4", "syn", "sackR", "udp6"} {
+				vn := vn
+				id := "C05/realtime-clock-step/" + vn
+				cases = append(cases, fw.Case{ID: id, Run: func(c *fw.Ctx) { runC05RealtimeClockStep(c, id, refmatch.VariantByName(vn)) }})
+			}
 			for _, vn := range []string{"icmp4", "udp4", "sackR"} {
 				vn := vn
 				id := "C05/realtime-slow-send/" + vn
